@@ -172,7 +172,7 @@ def _path_fun_names(lab, zoo, path):
 
 
 ZOO_TYPENAMES = {"Big", "T", "U", "ArrNFloat64", "ArrNT", "ArrNString", "Arr2x3Int16", "ArrNx3Float32",
-                 "Rare", "Leaf", "Arr1String", "Arr1x1ArrNFloat64", "Arr4Int32", "Arr3Arr4Int32", "Arr2Arr3Arr4Int32", "ArrNLeaf", "Branch", "ArrNBranch", "Arr2Int16"}
+                 "Rare", "Leaf", "Arr1String", "Arr1x1ArrNFloat64", "Arr4Int32", "Arr3Arr4Int32", "Arr2Arr3Arr4Int32", "ArrNLeaf", "Branch", "ArrNBranch", "Arr2Int16", "ArrNxNFloat64", "ArrNx2ArrNxNFloat64"}
 
 
 def build_zoo_rare(lab):
@@ -194,7 +194,10 @@ def build_zoo_rare(lab):
     AL = lab.array("ArrNLeaf", (None,), (0,), Leaf)
     Branch = lab.struct("Branch", [("k", I64), ("leaves", AL)])
     AB = lab.array("ArrNBranch", (None,), (0,), Branch)
-    Rare = lab.struct("Rare", [("n", I64), ("one", ONE), ("one2", ONE2), ("deep", D2), ("branches", AB)])
+    # (two arrays on one path that BOTH keep their strides in the header: the locals of the two levels live in one function)
+    M2 = lab.array("ArrNxNFloat64", (None, None), (0, 1), F)
+    G2 = lab.array("ArrNx2ArrNxNFloat64", (None, 2), (0, 1), M2)
+    Rare = lab.struct("Rare", [("n", I64), ("one", ONE), ("one2", ONE2), ("deep", D2), ("branches", AB), ("grid", G2)])
     leaf = lambda t: {"q": Opaque(f"q{t}"), "data": lab.value(f"ld{t}", [2])}
     args = {
         "n": Opaque("vn"),
@@ -202,11 +205,16 @@ def build_zoo_rare(lab):
         "one2": lab.value("oo", [1, 1], elem=lambda k: lab.value("ooi", [3])),
         "deep": lab.value("dp", [2], elem=lambda k: lab.value(f"dp{k}", [3], elem=lambda j: lab.value(f"dp{k}{j}", [4]))),
         "branches": lab.value("br", [2], elem=lambda k: {"k": Opaque(f"bk{k}"), "leaves": lab.value(f"lv{k}", [3], elem=lambda j: leaf(f"{k}{j}"))}),
+        "grid": lab.value("g", [2, 2], elem=lambda k: lab.value("g" + _idxname(k), [2, 3])),
         "_buffer": W.buffer,
     }
     rare = I.call(Rare, [], args)
     return {"Big": Rare, "big": rare, "others": (), "String": String,
-            "dims": {id(ONE): [1], id(ONE2): [1, 1], id(A1): [3], id(D4): [4], id(D3): [3], id(D2): [2], id(S2): [2], id(AL): [3], id(AB): [2]}}
+            "dims": {id(ONE): [1], id(ONE2): [1, 1], id(A1): [3], id(D4): [4], id(D3): [3], id(D2): [2], id(S2): [2], id(AL): [3], id(AB): [2], id(M2): [2, 3], id(G2): [2, 2]}}
+
+
+def _idxname(k):
+    return "_".join(str(x) for x in (k if isinstance(k, tuple) else (k,)))
 
 
 def accessor_mismatches(Z, texts):
@@ -238,6 +246,9 @@ def accessor_mismatches(Z, texts):
                 env["value"] = Poly.atom("value")
                 ev = CEval(mem, base, env)
                 r = ev.run(stmts)
+                if ev.redecl:
+                    bad = ("-", f"`{ev.redecl[0]}` is declared twice in the function body: a C compiler refuses the function (redefinition), on every target", "")
+                    break
                 got = base + ev.env["offset"]
                 if got != pol(want):
                     bad = (idxs, got - base, pol(want) - base)
@@ -355,13 +366,20 @@ def t3z(cx):
     cx.check(en is not None and en.group(1).split(",") == ["U_T_t", "U_ArrNFloat64_t"], None, construct=f"enum U_e{{{en.group(1) if en else '?'}}}", detail="C member ids enumerate _reftypes in order (same ids as _typeid_from_type)", bad_detail="C enum does not list the members in _reftypes order", anchor="capi::gen_enum", sub="enum")
 
 
-@rule("T3r", ["C02", "C07"], "rare shapes: arrays of extents (1,) / (1,1) with dynamically sized items, paths crossing three arrays (directly, and through structs) -- every generated accessor computes the address the Python locators compute")
+@rule("T3r", ["C02", "C07", "C15"], "rare shapes: arrays of extents (1,) / (1,1) with dynamically sized items, paths crossing three arrays (directly, and through structs) -- every generated accessor computes the address the Python locators compute")
 def t3r(cx):
     """The zoo of T3z has at most two arrays on a path and no array whose extents are all 1.  This second zoo has:
     `String[1]`, `Float64[:][1,1]` (one slot, dynamically sized item: the item offset table is still followed),
     `Int32[4][3][2]` and `branches[i].leaves[j].data[k]` with extents 2 / 3 / 2 (three arrays on one path: index
     argument k belongs to array k).  Evaluated like T3z for every in-range index tuple."""
-    Z = _zoo_sources(cx, build_zoo_rare)
+    from .. import peval as _pe
+
+    lim = _pe.MAX_STEPS
+    _pe.MAX_STEPS = max(lim, 4000000)  # (nine array classes, three of them nested three deep: the locators of ~120 index tuples)
+    try:
+        Z = _zoo_sources(cx, build_zoo_rare)
+    finally:
+        _pe.MAX_STEPS = lim
     funs = _functions(Z["src"])
     cx.need(len(funs) >= 30, f"only {len(funs)} generated functions recognised in the rare-shape zoo")
     res = accessor_mismatches(Z, {nm: v[1] for nm, v in funs.items()})
@@ -370,7 +388,7 @@ def t3r(cx):
     cx.need(len(deep) >= 4, f"only {len(deep)} accessors with three index arguments")
     for cname, params, nf, nidx, bad in res:
         cx.check(bad is None, None, construct=f"{cname}({params})", nf=nf, detail=f"C address = Python locator chain for {nidx} index tuple(s)",
-                 bad_detail=(f"indices {bad[0]}: C addresses obj+{bad[1]!r}, Python obj+{bad[2]!r}" if bad else ""), anchor="capi::gen_method_offset")
+                 bad_detail=((bad[1] if bad[0] == "-" else f"indices {bad[0]}: C addresses obj+{bad[1]!r}, Python obj+{bad[2]!r}") if bad else ""), anchor="capi::gen_method_offset")
 
 
 @rule("R07", ["C07"], "generated setter and getter of a leaf share one address computation and one typed access of the element's width")
